@@ -903,6 +903,11 @@ def translate_writers():
           'def genDataDoc (natoms natypes : Nat) (box atomsSection : Doc) (vel : Option Doc) : Doc :=', '  ' + doc, '']
     res, mode = _route(tail, 'content', 'atom_data.dump')
     flag = _returns_tail(tail, 'return_info', 'read_info', 'atom_data.dump')
+    snippet = ("if return_info is True:\n    if potential is not None:\n        read_info = potential.pair_data_info(f, system.pbc, "
+               "symbols=system.symbols, masses=system.masses, atom_style=atom_style, units=units, prompt=prompt, comments=comments)\n"
+               "    else:\n        read_info = info_content(system, f, atom_style=atom_style, units=units)\n    returns.append(read_info)")
+    if not any(_is_stmt(s, snippet) for s in tail):
+        _fail('atom_data.dump: the call that produces the command snippet (resolved atom_style / units handed on) has changed')
     L += [_lean_route('genDataDeliver', res, 'wantExtra'), f'def genDataFileMode : String := {_lean_q(mode)}',
           f'def genDataExtraWhen : String := {_lean_q(flag)}', '']
 
@@ -1213,7 +1218,7 @@ THEOREMS = [
     'C07.gen_tableUnits_eq_model', 'C07.gen_pins_eq_model',
     # whole calls: where the text goes; the generated documents under the whole-file theorems; refusals of poscar.dump
     'C07.deliver_spec', 'C07.gen_files_are_model_files', 'C07.poscar_refusal_iff', 'C07.data_call_end_to_end',
-    'C07.dump_call_end_to_end', 'C07.table_call_end_to_end', 'C07.poscar_call_end_to_end',
+    'C07.dump_call_end_to_end', 'C07.table_call_end_to_end', 'C07.poscar_call_end_to_end', 'C07.dump_refusal_iff',
     # the default columns of a dump file
     'C07.gen_defaultDump_eq_model', 'C07.default_dump_columns',
 ]
